@@ -110,6 +110,28 @@ func scenarioC09(c *Ctx) {
 			}
 		}
 	}
+	// messages for a round nobody has opened, with a stranger's / no signature, for every event
+	w0 := NewWorld(3, 2, 1)
+	for _, ev := range append(append([]string{}, publicEvents...), "signature_reconstructed", "signature_reconstruction_failed", "event_bogus") {
+		if ev == "event_sig_proposal_init" {
+			continue
+		}
+		for _, signer := range []string{"stranger", ""} {
+			data := []byte(`[{"File":"f","BatchID":"b","MessageID":"m","SrcPayload":"cGF5bG9hZC0x","Signature":"QUJD"}]`)
+			if ev != "signature_reconstructed" {
+				data = []byte(`{"ParticipantId":0,"CreatedAt":"2023-11-14T22:13:30Z"}`)
+			}
+			it := w0.RawMsg("round-never-opened", ev, data, w0.Users[1], "", signer, NOWMARK, "unknown-round-"+ev)
+			ev := ev
+			cases = append(cases, HistCase{Kind: "unknown-round", User: w0.Users[0], Items: []Item{it}, Check: func(o RunObs) {
+				if o.Classes[0] != "err" || o.Before != o.After {
+					c.Fail(Failure{Property: "C09", Kind: "acted-on-bad-signature", Signature: map[string]interface{}{"kind": "acted-on-bad-signature", "mutation": "unknown-round"},
+						What: "a " + ev + " message for a round nobody opened, without a valid signature, had an effect", Replay: map[string]interface{}{"event": ev, "before": o.Before, "after": o.After}})
+				}
+			}})
+		}
+	}
+	cases = append(cases, reinitCases(c, w0, "C09")...)
 	runCases(c, cases)
 	c.Notes["histories"] = len(cases)
 }
